@@ -70,7 +70,7 @@ func tier(quick, thorough int) int {
 
 // pkgArg is a package/file argument: non-empty, not starting with "-".
 func pkgArg(name string) string {
-	p := symx.String(name, 1+symx.Choose(tier(1, 3)))
+	p := symx.String(name, 1+symx.Choose(tier(1, 2)))
 	symx.Assume(p[0] != '-')
 	return p
 }
